@@ -29,6 +29,15 @@ def table_entries(model):
         if isinstance(v, (ast.Tuple, ast.List)) and v.elts and all(
                 isinstance(e, ast.Name) for e in v.elts):
             return m, v, [e.id for e in v.elts]
+    # explicit (name, function) pairs
+    for v in vals:
+        if isinstance(v, (ast.Tuple, ast.List)) and v.elts and all(
+                isinstance(e, ast.Tuple) and len(e.elts) == 2 and
+                isinstance(e.elts[0], ast.Constant) and
+                isinstance(e.elts[1], ast.Name) for e in v.elts):
+            m._dt_pair_names = {e.elts[1].id: e.elts[0].value
+                                for e in v.elts}
+            return m, v, [e.elts[1].id for e in v.elts]
     raise AnalysisError('DT_Var.modifiers: literal table of functions not '
                         'found')
 
@@ -51,6 +60,11 @@ def rule_table(model):
                        ctx=m)
         seen.add(n)
     r1.require_floor(10)
+    for fn, opt in sorted(getattr(m, '_dt_pair_names', {}).items()):
+        if fn != opt:
+            r2.finding('DT_Var:modifiers', f'({opt!r}, {fn})', f'the table '
+                       f'registers {fn} under the option name {opt!r}: the '
+                       f'option {fn} never selects it', node=node, ctx=m)
     # each entry resolves to a function of that name
     for n in sorted(seen):
         t = model.resolve_global(m, n)
@@ -264,6 +278,45 @@ def rule_agreements(model):
                 r.finding('DT_Var:special_formats',
                           f'{k.value!r}: {norm(v)}', f'format {k.value!r} '
                           f'should be the function {fn}', node=d, ctx=m)
+    # thousands_commas groups the integer part only
+    tc = m.funcs.get('thousands_commas')
+    if tc is None:
+        raise AnalysisError('DT_Var.thousands_commas not found')
+    rx = None
+    for p_ in tc.params():
+        d = model.param_default(tc, p_)
+        if d is not None and 're.compile' in norm(d):
+            rx = p_
+    fed = [n.args[0] for n in own_nodes(tc.node) if isinstance(n, ast.Call)
+           and isinstance(n.func, ast.Name) and n.func.id == rx and n.args]
+    ok = False
+    for a in fed:
+        if isinstance(a, ast.Name):
+            for d in model.local_defs(tc, a.id):
+                if isinstance(d, ast.Subscript) and \
+                        isinstance(d.slice, ast.Constant) and \
+                        d.slice.value == 0:
+                    base = d.value
+                    srcs = [base] if not isinstance(base, ast.Name) else [
+                        x for x in model.local_defs(tc, base.id)
+                        if not isinstance(x, (str, tuple))]
+                    for sx in srcs:
+                        if isinstance(sx, ast.Call) and \
+                                isinstance(sx.func, ast.Attribute) and \
+                                sx.func.attr in ('split', 'partition') and \
+                                sx.args and isinstance(sx.args[0],
+                                                       ast.Constant) and \
+                                sx.args[0].value == '.':
+                            ok = True
+    r.instance(tc.where, f'grouping regex fed with {[norm(a) for a in fed]}',
+               'integer part' if ok else 'WHOLE VALUE')
+    if not fed:
+        raise AnalysisError('thousands_commas: grouping regex use not found')
+    if not ok:
+        r.finding(tc.where, 'grouping input', 'the digit-grouping regex is '
+                  'not applied to the part before the first "." only: '
+                  'digits of the fraction get grouped too', node=tc.node,
+                  ctx=tc)
     # fmt twin blocks in Var.render
     ren = model.func('DT_Var', 'Var.render')
     chains = [n for n in own_nodes(ren.node) if isinstance(n, ast.If)
@@ -281,7 +334,41 @@ def rule_agreements(model):
     return r
 
 
-RULES = [rule_table, rule_stages, rule_agreements]
+def rule_membership(model):
+    r = RuleResult('C15.R6', 'value-carrying options are consulted by '
+                   'membership, never by truthiness (an explicitly empty '
+                   'value is a value)')
+    ren = model.func('DT_Var', 'Var.render')
+    argv = None
+    for n in own_nodes(ren.node):
+        if isinstance(n, ast.Assign) and norm(n.value) == 'self.args' and \
+                isinstance(n.targets[0], ast.Name):
+            argv = n.targets[0].id
+    names = {argv, 'self.args'} - {None}
+    for n in own_nodes(ren.node):
+        if isinstance(n, ast.Compare) and isinstance(n.ops[0], ast.In) and \
+                norm(n.comparators[0]) in names and \
+                isinstance(n.left, ast.Constant):
+            r.instance(ren.where, n, 'membership')
+        if isinstance(n, ast.BoolOp) and isinstance(n.op, ast.Or):
+            first = n.values[0]
+            reads = (isinstance(first, ast.Subscript) and
+                     norm(first.value) in names) or (
+                isinstance(first, ast.Call) and
+                isinstance(first.func, ast.Attribute) and
+                first.func.attr == 'get' and
+                norm(first.func.value) in names)
+            if reads:
+                r.instance(ren.where, n, 'TRUTHINESS')
+                r.finding(ren.where, n, 'an option value is replaced by a '
+                          'default when it is merely false: an explicitly '
+                          'empty value (etc="", null="") is ignored',
+                          node=n, ctx=ren)
+    r.require_floor(5)
+    return r
+
+
+RULES = [rule_table, rule_stages, rule_agreements, rule_membership]
 EXPLANATION = (
     'Table queries on the modifier table and the option grammar of '
     'dtml-var, iteration-source query, statement-order check of the stage '
